@@ -79,6 +79,13 @@ Definition inl_ok (x : tnode) : bool :=
   end.
 Definition ntags (l : list tnode) : nat := length (filter (fun x => negb (is_text x)) l).
 
+(* the values of a super variable are tags; its own name is looked up in the root value only (parse does not call
+   checkLoopVariable for it), so no value name of an enclosing loop may be a prefix of it; no comma in it *)
+Definition sub_ok (x : tnode) : bool := match x with TVar _ | TRaw _ | TMath _ => true | _ => false end.
+Definition fresh (names : list (list N)) (p : path) : bool :=
+  forallb (fun nm => match nm with [] => true | _ => negb (is_pfx nm (print_path p)) end) names.
+Definition no44 (s : list N) : bool := forallb (fun c => negb (N.eqb c 44)) s.
+
 Fixpoint wf_node1 (names : list (list N)) (depth : nat) (n : tnode) {struct n} : bool :=
   match n with
   | TText s => wf_text s
@@ -93,12 +100,18 @@ Fixpoint wf_node1 (names : list (list N)) (depth : nat) (n : tnode) {struct n} :
        | (Some e, b) :: r => wf_expr names e && forallb (wf_node1 names (S depth)) b && wm r
        | (None, b) :: r => forallb (wf_node1 names (S depth)) b && match r with [] => true | _ => false end
        end) more
+  | TSVar p subs =>
+    wf_path p && no44 (print_path p) && fresh names p && negb (match subs with [] => true | _ => false end) &&
+    forallb sub_ok subs && forallb (wf_node1 names (S depth)) subs
+  | TIIf c t f =>
+    wf_expr names c && forallb inl_ok t && forallb (wf_node1 names (S depth)) t &&
+    match f with Some fl => forallb inl_ok fl && forallb (wf_node1 names (S depth)) fl | None => true end &&
+    N.leb (N.of_nat (length (print_node n))) 65535 && (ntags t + match f with Some fl => ntags fl | None => 0 end <=? 255)
   | TLoop set val group sort body =>
     (depth <? 255) &&
     match set with Some p => wf_path p && uniq names p | None => true end &&
     wf_name val && wf_name group && N.leb sort 2 && (head_len set val group sort <=? 255) &&
     forallb (wf_node1 (val :: names) (S depth)) body
-  | _ => false
   end.
 Definition wf_template (ast : list tnode) : bool := forallb (wf_node1 [] 0) ast.
 
@@ -179,6 +192,26 @@ Fixpoint build (env : list (list N * loopinfo)) (depth off : nat) (n : tnode) {s
                let bo := o + 6 in
                PCase bo (bo + length (print_nodes b)) [] (bl env (S depth) bo b) :: bm (bo + length (print_nodes b)) r
              end) ce more)]
+  | TSVar p subs =>
+    [PSVar off (off + length (print_node n)) (mkV (off + 6) (N.of_nat (length (print_path p))) 0 0)
+           ((fix bs (o : nat) (l : list tnode) {struct l} : list tag :=
+               match l with
+               | [] => []
+               | x :: r => build env (S depth) (o + 2) x ++ bs (o + 2 + length (print_node x)) r
+               end) (off + 6 + length (print_path p)) subs)]
+  | TIIf c t f =>
+    let ts := off + 10 + length (print_expr c) + 8 in
+    let tl := length (print_nodes t) in
+    match f with
+    | Some fl =>
+      let fs := ts + tl + 9 in
+      [PIIf (mkI off (N.of_nat (length (print_node n))) (N.of_nat (ts - off)) (N.of_nat tl) (N.of_nat (fs - off))
+                 (N.of_nat (length (print_nodes fl))) 0 (N.of_nat (ntags t)))
+            (qexpr_of env (off + 10) c) (bl env (S depth) ts t ++ bl env (S depth) fs fl)]
+    | None =>
+      [PIIf (mkI off (N.of_nat (length (print_node n))) (N.of_nat (ts - off)) (N.of_nat tl) 0 0 0 0)
+            (qexpr_of env (off + 10) c) (bl env (S depth) ts t)]
+    end
   | TLoop set val group sort body =>
     let l := loop_rec env depth off set val group sort (length (print_nodes body)) in
     [PLoop l (bl ((val, info_of l) :: env) (S depth) (off + N.to_nat (l_coff l)) body)]
@@ -190,6 +223,12 @@ Fixpoint build_list (env : list (list N * loopinfo)) (depth off : nat) (l : list
   | x :: r => build env depth off x ++ build_list env depth (off + length (print_node x)) r
   end.
 (* top-level names for the local fixpoints of [wf_node1] / [build] over the else-cases *)
+Definition build_subs (env : list (list N * loopinfo)) (d : nat) : nat -> list tnode -> list tag :=
+  fix bs (o : nat) (l : list tnode) {struct l} : list tag :=
+    match l with
+    | [] => []
+    | x :: r => build env d (o + 2) x ++ bs (o + 2 + length (print_node x)) r
+    end.
 Definition wf_more (names : list (list N)) (depth : nat) : list (option expr * list tnode) -> bool :=
   fix wm (l : list (option expr * list tnode)) : bool :=
     match l with
